@@ -31,7 +31,7 @@ pub struct CheckResult {
     pub notes: Vec<String>,
 }
 
-pub fn write_evidence(id: &str, tier: &str, seed: u64, res: &CheckResult, wall_s: f64, violations: usize) -> std::io::Result<PathBuf> {
+pub fn write_evidence(id: &str, tier: &str, seed: u64, res: &CheckResult, wall_s: f64, violations: usize, known_printed: &[String]) -> std::io::Result<PathBuf> {
     let dir = verif_dir().join("evidence");
     std::fs::create_dir_all(&dir)?;
     let p = dir.join(format!("{id}.json"));
@@ -44,7 +44,8 @@ pub fn write_evidence(id: &str, tier: &str, seed: u64, res: &CheckResult, wall_s
         "assumptions": res.assumptions,
         "wall_s": (wall_s * 1000.0).round() / 1000.0,
         "violations": violations,
-        "verdict": match &res.verdict { Verdict::Held => "held".to_string(), Verdict::Violated(_) => "violated".to_string(), Verdict::Inconclusive(r) => format!("inconclusive: {r}") },
+        "verdict": match &res.verdict { Verdict::Held => "held".to_string(), Verdict::Violated(_) if violations == 0 => "held (only recorded known findings were observed)".to_string(), Verdict::Violated(_) => "violated".to_string(), Verdict::Inconclusive(r) => format!("inconclusive: {r}") },
+        "known_findings_observed": known_printed,
         "notes": res.notes,
     });
     std::fs::write(&p, serde_json::to_string_pretty(&v).unwrap())?;
